@@ -896,3 +896,8 @@ def size_candidates(rng, value, wire, cap, big=False):
             p = rng.choice(pos[1:])
         out.append((p, rec))
     return out
+
+
+# what a command function / a driver hands back when it has no answer (a missing `return` on one branch, a `dict.get`
+# miss, an empty reply of the hardware): offered at the result position of every command of the result stream
+NO_ANSWER = [None, '', b'', (), [], {}, 0, False, 0.0, NAN, 'None', 'null']
